@@ -123,6 +123,61 @@ def same_as_reference(chk, rule, rel, key, what, missing_ok=False):
     return ok
 
 
+def tree_of(repo):
+    """Fingerprints of the whole current tree (cached on the repo object)."""
+    if "_e8_tree" not in repo.__dict__:
+        repo.__dict__["_e8_tree"] = tree_fingerprints(repo)
+    return repo.__dict__["_e8_tree"]
+
+
+def definition_changes(repo, rel):
+    """Units of module `rel` that exist in only one of the two trees and are not accounted for:
+      ('removed', key)  a reference function or class- / module-level name that is gone.  Excused: a private helper that
+                        was evaluated inside its callers (their fingerprints contain its body) and whose name is gone from
+                        the package; a class- or module-level name that no longer occurs anywhere in the package.
+      ('added', key)    a new function or bound name.  Excused: a helper every caller evaluates in place; any unit under a
+                        name the reference tree never used and that is not a special method (new API, nothing can reach it
+                        by an old name).  What is left is a definition that *shadows or overrides* something — a method
+                        added to or removed from a class of a hierarchy changes which implementation is picked without
+                        changing the text of any existing function."""
+    ref = reference()
+    r = ref["modules"].get(rel)
+    if r is None or rel not in repo.modules:
+        return []
+    c = module_fingerprints(repo, rel)
+    out = []
+    missing = [k for kind in ("funcs", "scopes") for k in r.get(kind, {}) if k not in c.get(kind, {})]
+    added = [k for kind in ("funcs", "scopes") for k in c.get(kind, {}) if k not in r.get(kind, {})]
+    if not missing and not added:
+        return out
+    cur = tree_of(repo)
+    ref_helpers, cur_helpers = set(ref["helpers"]), set(cur["helpers"])
+    ref_ids, cur_ids = set(ref["identifiers"]), set(cur["identifiers"])
+
+    def bare(key):
+        return key.split("#")[-1] if "#" in key else key.split(".")[-1].split(":")[0]
+    for k in missing:
+        name = bare(k)
+        if name == "*":
+            continue
+        if "#" in k:
+            if name not in cur_ids:
+                continue
+        elif f"{rel}::{k}" in ref_helpers and name not in cur_ids:
+            continue
+        out.append(("removed", k))
+    for k in added:
+        name = bare(k)
+        if name == "*":
+            continue
+        if "#" not in k and f"{rel}::{k}" in cur_helpers and name not in ref_ids:
+            continue
+        if name not in ref_ids and not (name.startswith("__") and name.endswith("__")):
+            continue
+        out.append(("added", k))
+    return out
+
+
 def is_reference_tree(repo):
     """The source text of every module is the reference text: nothing to prove (and nothing to excuse)."""
     import hashlib
